@@ -6,3 +6,4 @@ pub mod norm;
 pub mod reach;
 pub mod sections;
 pub mod ident;
+pub mod dwarfread;
